@@ -6,7 +6,7 @@
 
 using namespace phosg;
 
-VF_SECTION(concurrent_pairs, 16, 16, 300) {
+static std::vector<pp::Call> make_calls() {
   // values are built once, outside the scheduler; serialize() is const
   static const JSON v_list = JSON::list({JSON(int64_t(1)), JSON(-2.5), JSON("a\"b\n"), JSON(true), JSON(nullptr)});
   static const JSON v_dict = JSON::dict({{"k", JSON::list({JSON(int64_t(7))})}, {"z", JSON::dict()}, {"e", JSON(1e20)}});
@@ -31,7 +31,19 @@ VF_SECTION(concurrent_pairs, 16, 16, 300) {
                        return std::string(back == *v ? "equal " : "DIFFERENT ") + back.serialize(O::SORT_DICT_KEYS);
                      })});
   }
+  return calls;
+}
+
+VF_SECTION(concurrent_pairs, 16, 16, 300) {
+  std::vector<pp::Call> calls = make_calls();
   pp::run_pairs(r, calls, r.thorough() ? 500 : 200, r.thorough() ? 200 : 0);
   r.bound = "every unordered pair (and every call with itself) of 16 serialize calls (4 values x 4 option sets) and 4 serialize->parse->compare round trips run concurrently: every schedule with <= 2 preemptions for same-kind pairs with <= 200 (thorough 500) scheduling points per call (thorough: cross pairs <= 200 too), <= 1 preemption otherwise; basic-block granularity of JSON.cc";
+}
+
+// First calls: every same-function pair (thorough: every pair) with each schedule in a freshly forked process.
+VF_SECTION(concurrent_cold, 16, 16, 600) {
+  std::vector<pp::Call> calls = make_calls();
+  pp::run_pairs_cold(r, calls, r.thorough());
+  r.bound = "first calls: every same-function pair of the calls above and every call with itself (thorough: every pair), each schedule in a freshly forked process that has never called the library: every schedule with <= 1 preemption at basic-block granularity";
 }
 VF_MAIN()
